@@ -1,4 +1,4 @@
-import GoatProofs.Reflect.Sound
+import GoatProofs.Reflect.Chain
 import Goat.Model.Fe448
 /-
 Glue between the reflective guarantee (about flat variable vectors) and limb-level statements.
@@ -105,8 +105,8 @@ theorem outputs_true_eq (P : Prog) (cfg : Cfg) (ins : List Int) (g : Guarantee P
   rw [g.noOverflow]; rfl
 
 theorem allIn_outputs (P : Prog) (cfg : Cfg) (ins : List Int) (g : Guarantee P cfg ins) (lo hi : Int)
-    (hlo : cfg.outLo = List.replicate P.outs.length lo) (hhi : cfg.outHi = List.replicate P.outs.length hi) :
-    AllIn lo hi (P.outs.map (P.val ins)) := by
+    (hlo : cfg.outLo = List.replicate cfg.obs.length lo) (hhi : cfg.outHi = List.replicate cfg.obs.length hi) :
+    AllIn lo hi (cfg.obs.map (P.val ins)) := by
   intro x hx
   obtain ⟨i, hi, rfl⟩ := List.getElem_of_mem hx
   simp only [List.length_map] at hi
@@ -115,5 +115,78 @@ theorem allIn_outputs (P : Prog) (cfg : Cfg) (ins : List Int) (g : Guarantee P c
   simp only [List.getD_eq_getElem?_getD, List.getElem?_replicate, hi, if_true, Option.getD_some,
     List.getElem?_eq_getElem hi] at this
   simpa using this
+
+
+theorem weightedSum_append (ρ : Nat → Int) : ∀ (o1 o2 : List Nat) (w1 w2 : List Int), o1.length = w1.length →
+    weightedSum ρ (o1 ++ o2) (w1 ++ w2) = weightedSum ρ o1 w1 + weightedSum ρ o2 w2 := by
+  intro o1
+  induction o1 with
+  | nil => intro o2 w1 w2 h; cases w1 with
+    | nil => simp [weightedSum]
+    | cons _ _ => cases h
+  | cons o os ih =>
+    intro o2 w1 w2 h
+    cases w1 with
+    | nil => cases h
+    | cons w ws =>
+      simp only [List.cons_append, weightedSum, ih o2 ws w2 (by simpa using h)]; ring
+
+theorem weightedSum_neg (ρ : Nat → Int) : ∀ (o : List Nat) (w : List Int),
+    weightedSum ρ o (w.map (fun x => -x)) = - weightedSum ρ o w := by
+  intro o
+  induction o with
+  | nil => intro w; cases w <;> simp [weightedSum]
+  | cons x xs ih =>
+    intro w
+    cases w with
+    | nil => simp [weightedSum]
+    | cons y ys => simp only [List.map_cons, weightedSum, ih ys]; ring
+
+theorem weightedSum_single (ρ : Nat → Int) (o : Nat) (w : Int) : weightedSum ρ [o] [w] = w * ρ o := by
+  simp [weightedSum]
+
+theorem weights_length (k : Nat) : ∀ (n s : Nat), (weights k n s).length = n := by
+  intro n; induction n with
+  | zero => intro s; rfl
+  | succ n ih => intro s; simp [weights, ih]
+
+/-- 1 + 2^k + … + 2^(k(n-1)) -/
+def geom (k : Nat) : Nat → Int
+  | 0 => 0
+  | n + 1 => 1 + 2 ^ k * geom k n
+
+theorem geom_nonneg (k n : Nat) : 0 ≤ geom k n := by
+  induction n with
+  | zero => simp [geom]
+  | succ n ih => simp only [geom]; have : (0:Int) ≤ 2 ^ k * geom k n := Int.mul_nonneg (by positivity) ih; omega
+
+theorem evalR_bounds (k : Nat) (b : Int) (hb : 0 ≤ b) : ∀ (l : List Int), AllIn 0 b l →
+    0 ≤ evalR k l ∧ evalR k l ≤ b * geom k l.length := by
+  intro l
+  induction l with
+  | nil => intro _; simp [evalR, geom]
+  | cons x xs ih =>
+    intro h
+    have hx := h x (by simp)
+    obtain ⟨i1, i2⟩ := ih (fun y hy => h y (by simp [hy]))
+    have hp : (0 : Int) ≤ 2 ^ k := by positivity
+    simp only [evalR, List.length_cons, geom]
+    constructor
+    · have : (0:Int) ≤ 2 ^ k * evalR k xs := Int.mul_nonneg hp i1
+      omega
+    · have : 2 ^ k * evalR k xs ≤ 2 ^ k * (b * geom k xs.length) := Int.mul_le_mul_of_nonneg_left i2 hp
+      have e : b * (1 + 2 ^ k * geom k xs.length) = b + 2 ^ k * (b * geom k xs.length) := by ring
+      rw [e]; omega
+
+theorem evalT_eq_evalR (k : Nat) (l : List Int) : evalT (2 ^ k) l = evalR k l := by
+  induction l with
+  | nil => rfl
+  | cons x xs ih => simp only [evalT, evalR, ih]
+
+/-- hint (quotient variable) of a `low` op defining variable `v` -/
+def lowHintOf (P : Prog) (v : Nat) : Nat :=
+  match P.body.getD (v - P.nIn) (.const 0) with
+  | .low _ _ (some q) => q
+  | _ => 0
 
 end Glue
